@@ -60,6 +60,12 @@ func genC15(d *RunDesc, tier string) {
 		t, _, _ := genTemplate(wl, wl.intn(3))
 		tmpls = append(tmpls, t)
 	}
+	faultPool := map[string][]Fault{}
+	for _, t := range tmpls {
+		for i := 0; i < 2; i++ {
+			faultPool[t] = append(faultPool[t], genFault(fl, len(t), i == 1 && wl.chance(1, 2)))
+		}
+	}
 	maxLen := 200
 	if tier == "thorough" && wl.chance(1, 10) {
 		maxLen = 2000
@@ -109,12 +115,12 @@ func genC15(d *RunDesc, tier string) {
 			op := Op{K: "exp", Rep: &Ref{I: pick(wl, reps)}, Tmpl: t, Via: "str"}
 			if wl.chance(1, 2) {
 				op.Via = "rd"
-				f := genFault(fl, len(t), wl.chance(1, 4))
+				f := pick(wl, faultPool[t])
 				op.Fault = &f
 			}
 			ops = append(ops, op)
 		case c < 94:
-			ops = append(ops, Op{K: "lkp", Fn: wl.intn(len(lookups)), SArg: pick(wl, []string{"N", "L", "H", "X", "P", "ND", "3.1", "CVSS:3.0", "", "U", "C", "POC", "A", "R", "M"}), IArg: wl.intn(7), Lang: wl.intn(len(langs))})
+			ops = append(ops, Op{K: "lkp", Fn: wl.intn(len(lookups)), SArg: pick(wl, lookupArgs), IArg: wl.intn(7), Lang: wl.intn(len(langs))})
 		default:
 			ops = append(ops, Op{K: "twin", Obj: &Ref{I: pick(wl, live)}, LB: wl.chance(1, 4)})
 		}
